@@ -1,8 +1,10 @@
 from props import prop
 
 prop("C05", "exploration",
-     "Layer 1 (direct, in-package, no network). rapid draws a history of 1..24 operations on one HopServer (users alice, bob and "
-     "ghost = no passwd entry; four fixed X25519 keys): write a user's authorized_keys file from a line grammar (canonical entry, "
+     "Layer 1 (direct, in-package, no network). rapid draws a history of 1..24 operations on one HopServer (users: a per-history cast drawn from alice, bob, ghost = no passwd entry, "
+     "and NEAR-COLLISIONS of these names - Alice, ALICE, 'alice ' (trailing blank), 'alice\\x00', Bob, sam / long-s 'am' (U+017F) - each a distinct "
+     "account with its own home directory and file; two thirds of the histories play with two or three names of one such family, so that what "
+     "is listed or granted for one name is asked for as the other; the model keys files and grants by the exact string; four fixed X25519 keys): write a user's authorized_keys file from a line grammar (canonical entry, "
      "entry with surrounding blanks, blank, whitespace, comment incl. commented-out entry, wrong prefix, truncated / over-long / "
      "non-base64 payload, 31- and 33-byte key, line > 64 KiB, trailing text, two entries on one line, arbitrary bytes, BOM; LF or "
      "CRLF; with or without final newline), remove it, put a directory in its place, switch authgrants on/off, add a grant "
@@ -24,7 +26,14 @@ prop("C05", "exploration",
      "missing / unreadable / empty / malformed / lists only other keys / belongs to no user, or a login after the pair's grant was "
      "consumed; distinct by hash of the whole history. Units e2e and concurrent are shared with C07: the real hopSession login over a "
      "simulated transport (login confirmed only with a file entry or a stored grant), and real goroutines racing "
-     "AuthorizeKeyAuthGrant for one stored grant (an unconsumed grant admits one login, not two; also under the race detector).",
+     "AuthorizeKeyAuthGrant for one stored grant (an unconsumed grant admits one login, not two; also under the race detector) or storing "
+     "grants for one pair at the same time (every stored grant comes out exactly once). Units concurrent-login (plain and under the race "
+     "detector): 2..8 real goroutines (spin barrier, drawn Gosched counts) log in at the same time, 20..300 times each, as 2..4 DIFFERENT "
+     "accounts (often near-collisions of one name) plus the ghost, whose files list different keys - half of the cases give every account a "
+     "file of the same shape and length with its own keys, the others independent files from the line grammar or none; nothing changes and no "
+     "grant exists while they run, and every decision is judged like in layer 1 (granted => well-formed entry of THAT user's file; refused "
+     "=> not a canonical file listing the key), after a sequential pass over the same logins; non-trivial there = at least two goroutines and "
+     "a login with a key that is listed for another account of the case only.",
      ["'login' is the decision sequence of checkAuthorization as read in hopserver/session.go, re-stated in the harness "
       "(verifAuthzLogin); the real hopSession over a transport is layer 2",
       "well-formed entry = optional surrounding white space + 'hop-dh-v1-' + padded standard base64 of exactly 32 bytes, one per "
@@ -33,7 +42,9 @@ prop("C05", "exploration",
      [dict(name="model", pkg="hopserver", run="^TestVerifC05Login$", shards=dict(quick=8, thorough=16), thorough_scale=100),
       dict(name="e2e", pkg="hopserver", run="^TestVerifC07EndToEnd$", shards=dict(quick=16, thorough=16), thorough_scale=20, timeout=dict(quick=900, thorough=3600)),
       dict(name="concurrent", pkg="hopserver", run="^TestVerifC07ConcurrentAdmission$", shards=dict(quick=8, thorough=16), thorough_scale=20),
-      dict(name="concurrent-race", pkg="hopserver", race=True, run="^TestVerifC07ConcurrentAdmission$", shards=dict(quick=4, thorough=8), thorough_scale=10)],
+      dict(name="concurrent-race", pkg="hopserver", race=True, run="^TestVerifC07ConcurrentAdmission$", shards=dict(quick=4, thorough=8), thorough_scale=10),
+      dict(name="concurrent-login", pkg="hopserver", run="^TestVerifC05ConcurrentLogin$", shards=dict(quick=6, thorough=16), thorough_scale=20),
+      dict(name="concurrent-login-race", pkg="hopserver", race=True, run="^TestVerifC05ConcurrentLogin$", shards=dict(quick=4, thorough=8), thorough_scale=10)],
      text="Model-based search: generated histories of authorized_keys edits, grant additions, authgrant switches and logins run on a "
           "real HopServer (in-memory file system, stubbed passwd lookup) and on a reference model written from the statement; every "
           "login decision is compared with 'listed or live grant'. Absence is not shown; layer 1 does not run the transport or the "
